@@ -732,13 +732,13 @@ Qed.
 
 (* C08, first clause: what ToHex/ToBase64 write is accepted by the parsers and yields the packet
    up to v0_norm, whatever follows the last section *)
-Theorem v0_parse_ser p extra : wf p = true ->
-  exists bs, v0_ser p = Some bs /\ parse (bs ++ extra) = Some (v0_norm p).
+Theorem v0_parse_rest_ser p extra : wf p = true ->
+  exists bs, v0_ser p = Some bs /\ v0_parse_rest valid_pk valid_sig (bs ++ extra) = Some (v0_norm p, extra).
 Proof.
   unfold v0_wf. intro W. apply andb_true_iff in W as [WC W45].
   apply wf_core_parts in WC as (Wt & Wu & Wl & Li & Lo & Wi & Ws & Wo & Wg).
   unfold v0_wufloor_all in W45. unfold v0_ser. rewrite Ws. eexists. split; [reflexivity|].
-  unfold v0_parse, bind. rewrite <- !app_assoc.
+  unfold v0_parse_rest, bind. rewrite <- !app_assoc.
   rewrite (take_app_n 5) by reflexivity.
   change (bytes_eqb v0_magic v0_magic) with true. cbn [negb].
   unfold v0_ser_section at 1, v0_global_kvs, enc_list. cbn [map concat]. unfold v0_kv at 1. cbn [fst snd].
@@ -764,6 +764,13 @@ Proof.
   { apply forallb_forall. intros x Hx. apply in_map_iff in Hx as [i [<- Hi]].
     apply v0_sane_norm. rewrite forallb_forall in Ws. apply Ws; exact Hi. }
   rewrite SN. reflexivity.
+Qed.
+
+Theorem v0_parse_ser p extra : wf p = true ->
+  exists bs, v0_ser p = Some bs /\ parse (bs ++ extra) = Some (v0_norm p).
+Proof.
+  intro W. destruct (v0_parse_rest_ser p extra W) as [bs [S R]]. exists bs. split; [exact S|].
+  unfold v0_parse. rewrite R. reflexivity.
 Qed.
 
 End Packet.
@@ -1019,7 +1026,7 @@ Qed.
 (* everything the parser accepts lies in the wire domain (except the 44-byte floor, see v0_wufloor) *)
 Theorem v0_parse_wf bs p : v0_parse valid_pk valid_sig bs = Some p -> v0_wf_core valid_pk valid_sig p = true.
 Proof.
-  unfold v0_parse, bind.
+  unfold v0_parse, v0_parse_rest, bind.
   destruct (take 5 bs) as [[m r0]|]; [|discriminate].
   destruct (negb (bytes_eqb m v0_magic)); [discriminate|].
   destruct (v0_p_key r0) as [[[[|tb [|? ?]]|] r1]|]; try discriminate.
